@@ -18,6 +18,7 @@ type c06Target struct {
 	method  int   // the method number in methzoo.Call that is mocked
 	alsoHit []int // other method numbers that legitimately share the code (same GC shape)
 	apply   func(b *mocker.Builder, seen *[]int)
+	wantTag int // > 0: the replacement that must answer (the callback's tag), for targets that are applied more than once
 }
 
 // fake stand-ins for the unexported struct type (identical layout)
@@ -40,38 +41,53 @@ func c06Targets() []c06Target {
 		return func(a *c06FakeC, x int) int { *seen = append(*seen, a.K); return tag*100000 + a.K*100 + x }
 	}
 	return []c06Target{
-		{"Struct(&A).Method(Get)", 0, nil, func(b *mocker.Builder, s *[]int) { b.Struct(&mz.A{}).Method("Get").Apply(cbA(s, 1)) }},
-		{"Struct(&A).Method(GetMore)", 1, nil, func(b *mocker.Builder, s *[]int) { b.Struct(&mz.A{}).Method("GetMore").Apply(cbA(s, 2)) }},
-		{"Struct(&A).Method(G)", 2, nil, func(b *mocker.Builder, s *[]int) { b.Struct(&mz.A{}).Method("G").Apply(cbA(s, 3)) }},
-		{"Struct(&A).ExportMethod(get)", 3, nil, func(b *mocker.Builder, s *[]int) { b.Struct(&mz.A{}).ExportMethod("get").Apply(cbA(s, 4)) }},
-		{"Struct(&A).ExportMethod(getMore)", 4, nil, func(b *mocker.Builder, s *[]int) { b.Struct(&mz.A{}).ExportMethod("getMore").Apply(cbA(s, 5)) }},
-		{"Struct(A{}).Method(Val)", 5, []int{21}, func(b *mocker.Builder, s *[]int) { b.Struct(mz.A{}).Method("Val").Apply(cbAV(s, 6)) }},
-		{"Struct(A{}).Method(ValMore)", 6, nil, func(b *mocker.Builder, s *[]int) { b.Struct(mz.A{}).Method("ValMore").Apply(cbAV(s, 7)) }},
-		{"Struct(A{}).ExportMethod(val)", 7, nil, func(b *mocker.Builder, s *[]int) { b.Struct(mz.A{}).ExportMethod("val").Apply(cbAV(s, 8)) }},
-		{"Struct(&B).Method(Get)", 8, nil, func(b *mocker.Builder, s *[]int) { b.Struct(&mz.B{}).Method("Get").Apply(cbB(s, 9)) }},
-		{"Struct(B{}).Method(Val)", 9, nil, func(b *mocker.Builder, s *[]int) { b.Struct(mz.B{}).Method("Val").Apply(cbBV(s, 10)) }},
-		{"Struct(&B).ExportMethod(get)", 10, nil, func(b *mocker.Builder, s *[]int) { b.Struct(&mz.B{}).ExportMethod("get").Apply(cbB(s, 11)) }},
-		{"Pkg.ExportStruct(*c).Method(Run)", 11, nil, func(b *mocker.Builder, s *[]int) { b.Pkg(c06Pkg).ExportStruct("*c").Method("Run").Apply(cbC(s, 12)) }},
-		{"Pkg.ExportStruct(*c).Method(run)", 12, nil, func(b *mocker.Builder, s *[]int) { b.Pkg(c06Pkg).ExportStruct("*c").Method("run").Apply(cbC(s, 13)) }},
-		{"Pkg.ExportFunc((*A).get)", 3, nil, func(b *mocker.Builder, s *[]int) { b.Pkg(c06Pkg).ExportFunc("(*A).get").Apply(cbA(s, 14)) }},
+		{"Struct(&A).Method(Get)", 0, nil, func(b *mocker.Builder, s *[]int) { b.Struct(&mz.A{}).Method("Get").Apply(cbA(s, 1)) }, 0},
+		{"Struct(&A).Method(GetMore)", 1, nil, func(b *mocker.Builder, s *[]int) { b.Struct(&mz.A{}).Method("GetMore").Apply(cbA(s, 2)) }, 0},
+		{"Struct(&A).Method(G)", 2, nil, func(b *mocker.Builder, s *[]int) { b.Struct(&mz.A{}).Method("G").Apply(cbA(s, 3)) }, 0},
+		{"Struct(&A).ExportMethod(get)", 3, nil, func(b *mocker.Builder, s *[]int) { b.Struct(&mz.A{}).ExportMethod("get").Apply(cbA(s, 4)) }, 0},
+		{"Struct(&A).ExportMethod(getMore)", 4, nil, func(b *mocker.Builder, s *[]int) { b.Struct(&mz.A{}).ExportMethod("getMore").Apply(cbA(s, 5)) }, 0},
+		{"Struct(A{}).Method(Val)", 5, []int{21}, func(b *mocker.Builder, s *[]int) { b.Struct(mz.A{}).Method("Val").Apply(cbAV(s, 6)) }, 0},
+		{"Struct(A{}).Method(ValMore)", 6, nil, func(b *mocker.Builder, s *[]int) { b.Struct(mz.A{}).Method("ValMore").Apply(cbAV(s, 7)) }, 0},
+		{"Struct(A{}).ExportMethod(val)", 7, nil, func(b *mocker.Builder, s *[]int) { b.Struct(mz.A{}).ExportMethod("val").Apply(cbAV(s, 8)) }, 0},
+		{"Struct(&B).Method(Get)", 8, nil, func(b *mocker.Builder, s *[]int) { b.Struct(&mz.B{}).Method("Get").Apply(cbB(s, 9)) }, 0},
+		{"Struct(B{}).Method(Val)", 9, nil, func(b *mocker.Builder, s *[]int) { b.Struct(mz.B{}).Method("Val").Apply(cbBV(s, 10)) }, 0},
+		{"Struct(&B).ExportMethod(get)", 10, nil, func(b *mocker.Builder, s *[]int) { b.Struct(&mz.B{}).ExportMethod("get").Apply(cbB(s, 11)) }, 0},
+		{"Pkg.ExportStruct(*c).Method(Run)", 11, nil, func(b *mocker.Builder, s *[]int) { b.Pkg(c06Pkg).ExportStruct("*c").Method("Run").Apply(cbC(s, 12)) }, 0},
+		{"Pkg.ExportStruct(*c).Method(run)", 12, nil, func(b *mocker.Builder, s *[]int) { b.Pkg(c06Pkg).ExportStruct("*c").Method("run").Apply(cbC(s, 13)) }, 0},
+		{"Pkg.ExportFunc((*A).get)", 3, nil, func(b *mocker.Builder, s *[]int) { b.Pkg(c06Pkg).ExportFunc("(*A).get").Apply(cbA(s, 14)) }, 0},
+		// names ending in f / m beside their prefixes; a method value (runtime name (*A).Getf-fm)
+		{"Struct(&A).ExportMethod(getf)", 25, nil, func(b *mocker.Builder, s *[]int) { b.Struct(&mz.A{}).ExportMethod("getf").Apply(cbA(s, 15)) }, 0},
+		{"Struct(&A).ExportMethod(getf).As.Return", 25, nil, func(b *mocker.Builder, s *[]int) {
+			b.Struct(&mz.A{}).ExportMethod("getf").As(func(a *mz.A, x int) int { return 0 }).Return(-2300000)
+		}, 0},
+		{"Func((&A{}).Getf).Return", 26, nil, func(b *mocker.Builder, s *[]int) { b.Func((&mz.A{}).Getf).Return(-2400000) }, 0},
+		// the same method mocked again while it is still mocked, with another closure of the SAME function literal
+		{"Struct(&A).Method(GetMore) twice", 1, nil, func(b *mocker.Builder, s *[]int) {
+			b.Struct(&mz.A{}).Method("GetMore").Apply(cbA(s, 20))
+			b.Struct(&mz.A{}).Method("GetMore").Apply(cbA(s, 21))
+		}, 21},
+		{"Struct(&B).ExportMethod(get) twice", 10, nil, func(b *mocker.Builder, s *[]int) {
+			b.Struct(&mz.B{}).ExportMethod("get").Apply(cbB(s, 22))
+			b.Struct(&mz.B{}).ExportMethod("get").Apply(cbB(s, 23))
+		}, 23},
 		// generic methods: stubbed results (no arguments involved) to observe WHICH instantiations are affected ...
-		{"Struct(&G[int]).Method(Id).Return", 14, []int{15}, func(b *mocker.Builder, s *[]int) { b.Struct(&mz.G[int]{}).Method("Id").Return(-1500000) }},
-		{"Struct(&G[string]).Method(Id).Return", 16, nil, func(b *mocker.Builder, s *[]int) { b.Struct(&mz.G[string]{}).Method("Id").Return(-1600000) }},
-		{"Struct(&G[*A]).Method(Id).Return", 17, []int{18}, func(b *mocker.Builder, s *[]int) { b.Struct(&mz.G[*mz.A]{}).Method("Id").Return(-1700000) }},
-		{"Struct(&G[int]).Method(Other).Return", 19, nil, func(b *mocker.Builder, s *[]int) { b.Struct(&mz.G[int]{}).Method("Other").Return(-1800000) }},
-		{"Struct(G[int]{}).Method(ValId).Return", 22, []int{24}, func(b *mocker.Builder, s *[]int) { b.Struct(mz.G[int]{}).Method("ValId").Return(-1900000) }},
-		{"Struct(G[string]{}).Method(ValId).Return", 23, nil, func(b *mocker.Builder, s *[]int) { b.Struct(mz.G[string]{}).Method("ValId").Return(-2000000) }},
+		{"Struct(&G[int]).Method(Id).Return", 14, []int{15}, func(b *mocker.Builder, s *[]int) { b.Struct(&mz.G[int]{}).Method("Id").Return(-1500000) }, 0},
+		{"Struct(&G[string]).Method(Id).Return", 16, nil, func(b *mocker.Builder, s *[]int) { b.Struct(&mz.G[string]{}).Method("Id").Return(-1600000) }, 0},
+		{"Struct(&G[*A]).Method(Id).Return", 17, []int{18}, func(b *mocker.Builder, s *[]int) { b.Struct(&mz.G[*mz.A]{}).Method("Id").Return(-1700000) }, 0},
+		{"Struct(&G[int]).Method(Other).Return", 19, nil, func(b *mocker.Builder, s *[]int) { b.Struct(&mz.G[int]{}).Method("Other").Return(-1800000) }, 0},
+		{"Struct(G[int]{}).Method(ValId).Return", 22, []int{24}, func(b *mocker.Builder, s *[]int) { b.Struct(mz.G[int]{}).Method("ValId").Return(-1900000) }, 0},
+		{"Struct(G[string]{}).Method(ValId).Return", 23, nil, func(b *mocker.Builder, s *[]int) { b.Struct(mz.G[string]{}).Method("ValId").Return(-2000000) }, 0},
 		// stubs (As + Return) on unexported methods of one struct
 		{"Struct(&A).ExportMethod(get).As.Return", 3, nil, func(b *mocker.Builder, s *[]int) {
 			b.Struct(&mz.A{}).ExportMethod("get").As(func(a *mz.A, x int) int { return 0 }).Return(-2100000)
-		}},
+		}, 0},
 		{"Struct(&A).ExportMethod(getMore).As.Return", 4, nil, func(b *mocker.Builder, s *[]int) {
 			b.Struct(&mz.A{}).ExportMethod("getMore").As(func(a *mz.A, x int) int { return 0 }).Return(-2200000)
-		}},
+		}, 0},
 		// ... and a callback, which must see the receiver as its first argument
 		{"Struct(&G[string]).Method(Other).Apply", 20, nil, func(b *mocker.Builder, s *[]int) {
 			b.Struct(&mz.G[string]{}).Method("Other").Apply(func(g *mz.G[string], x int) int { *s = append(*s, g.K); return 19*100000 + g.K*100 + x })
-		}},
+		}, 0},
 	}
 }
 
@@ -159,11 +175,14 @@ func c06(args []string) int {
 		var names []string
 		var methods []int
 		var also [][]int
+		var wantTags []int
 		for _, t := range chosen {
 			names = append(names, tg[t].name)
 			methods = append(methods, tg[t].method)
 			also = append(also, tg[t].alsoHit)
+			wantTags = append(wantTags, tg[t].wantTag)
 		}
+		rec["want_tags"] = wantTags
 		rec["targets"], rec["methods"], rec["also"], rec["apply_panic"] = names, methods, also, pan
 		out.Put(map[string]interface{}{"kind": "about-to-probe", "sc": sc, "targets": names})
 		out.Flush()
